@@ -104,6 +104,12 @@ def record_fn(_xv=("int", None), **kw):
     """Module-level (hence picklable) recording function.  ``_xv`` is bound
     with functools.partial: (result kind, log file or None)."""
     kind, logfile = _xv[:2]
+    if len(_xv) > 3 and _xv[3]:
+        # a function that seeds the global generators from its arguments, as
+        # simulation codes do for reproducibility
+        import random
+        random.seed(kw_number(kw))
+        np.random.seed(kw_number(kw) % 2**32)
     if len(_xv) > 2 and isinstance(_xv[2], (list, tuple)) and \
             _xv[2] and _xv[2][0] == "hold":
         # ("hold", yield path, a file, actor name): the named actor stays in
